@@ -506,7 +506,7 @@ class BaseTask(object, metaclass=abc.ABCMeta):
             self.allocated_worker_id_record = []
             self.allocated_facility_id_record = []
 
-        if state_info and log_info:
+        if state_info:
             if self.default_progress >= (1.00 - error_tol):
                 self.state = BaseTaskState.FINISHED
 
